@@ -139,13 +139,13 @@ def check(run):
                                ("pass", GEN_PASS, True)]:
             if "replay" not in STAGES and name not in STAGES:
                 continue
-            steps, tocs, st = gen_walks(run, name, ov, 34, 150 if thorough else 20)
+            steps, tocs, st = gen_walks(run, name, ov, 34, 150 if thorough else 10)
             exhaustive = exhaustive and st["covered"] == st["edges"]
             jobs.append({"name": name, "ov": ov, "out": os.path.join(run.scratch, "replay_%s.ndjson" % name), "dircache": dirc,
                          "tocs": tocs, "walks": steps})
     if "layer" in STAGES:
         ov = GEN_LAYER_THOROUGH if thorough else GEN_LAYER
-        steps, tocs, st = gen_walks(run, "layer", ov, 30, 100 if thorough else 20)
+        steps, tocs, st = gen_walks(run, "layer", ov, 30, 100 if thorough else 10)
         exhaustive = exhaustive and st["covered"] == st["edges"]
         ljob = {"name": "layer", "ov": ov, "out": os.path.join(run.scratch, "replay_layer.ndjson"), "tocs": tocs, "walks": steps}
     log("[time] generation done at %.0fs" % (time.time() - t0))
@@ -159,10 +159,10 @@ def check(run):
         env["VERIF_IN"] = inp
         tests.append("Replay")
     if "free" in STAGES:
-        env.update({"VERIF_FREE_OUT": free, "VERIF_FREE_TRACES": "700" if thorough else "70"})
+        env.update({"VERIF_FREE_OUT": free, "VERIF_FREE_TRACES": "700" if thorough else "60"})
         tests.append("Free")
     if "sweep" in STAGES:
-        env.update({"VERIF_SWEEP_OUT": sweep, "VERIF_SWEEP_STRIDE": "3" if thorough else "61"})
+        env.update({"VERIF_SWEEP_OUT": sweep, "VERIF_SWEEP_STRIDE": "3" if thorough else "127"})
         tests.append("Sweep")
     if tests:
         rc, out = run.go_driver("", "./fs/reader/", OV_READER, "^TestVerifC01(%s)$" % "|".join(tests), env=env, timeout=3000)
